@@ -558,6 +558,52 @@ func (k *checker) run(cs *chainCase, d db.KeyValueStore, useBatch bool, tb *layo
 			}
 		}
 		bulk()
+		// ---- lazy results held across reads of ANOTHER block's entry: an iterator / lazy slice obtained for block n
+		// must still yield block n's items after other entries were decoded in between (before the first item and
+		// in the middle of the iteration) ----
+		if n > 0 {
+			other := n - 1
+			touch := func() {
+				_, _ = core.GetTransactionsByBlockNumber(d, other)
+				_, _ = core.GetReceiptsByBlockNumber(d, other)
+				_, _ = core.GetTransactionHashesByBlockNumber(d, other)
+				_, _ = core.GetTransactionEventsByBlockNumber(d, other)
+				if _, err := core.GetBlockByNumber(d, other); err == nil {
+					_, _ = core.BlockTransactionsBucket.Get(d, other)
+				}
+			}
+			for _, mid := range []int{0, 1, len(b.Txs) / 2} {
+				seq := core.GetTransactionsByBlockNumberIter(d, n)
+				heldBT, heldErr := core.BlockTransactionsBucket.Get(d, n)
+				if mid == 0 {
+					touch()
+				}
+				var got []core.Transaction
+				var gerr error
+				i := 0
+				for t, err := range seq {
+					if err != nil {
+						gerr = err
+						break
+					}
+					got = append(got, t)
+					i++
+					if i == mid {
+						touch()
+					}
+				}
+				k.eq("held-across-reads:core.GetTransactionsByBlockNumberIter", n, mid, e.allTx, dumpTxs(got), gerr)
+				if heldErr == nil {
+					ta, err := heldBT.Transactions().All()
+					k.eq("held-across-reads:BlockTransactions.Transactions.All", n, mid, e.allTx, dumpTxs(ta), err)
+					ra, err := heldBT.Receipts().All()
+					k.eq("held-across-reads:BlockTransactions.Receipts.All", n, mid, e.allRc, dumpRcs(ra), err)
+				}
+				if len(b.Txs) < 2 {
+					break
+				}
+			}
+		}
 		if m >= 200 {
 			old := runtime.GOMAXPROCS(3)
 			k.note = " [GOMAXPROCS=3]"
